@@ -332,6 +332,9 @@ package klog
 // lies before the start.
 //@ func (*record).EndOpenRange
 //@ requires typeis(end, *time)
-//@ modifies r.entries, elems(r.entries)
+//@ modifies elems(r.entries)
 //@ ensures implies(result == nil, len(r.entries) == old(len(r.entries)))
+// the entry list is updated in place and every entry keeps its summary
+//@ ensures same(r.entries, old(r.entries)) && forall(i, 0, len(r.entries), same(r.entries[i].summary, old(r.entries[i].summary)) && ekind(r.entries[i]))
 //@ loop 1 invariant forall(i, 0, rangeindex+1, !typeis(r.entries[i].value, *openRange)) && forall(i, 0, len(r.entries), ekind(r.entries[i]))
+//@ loop 1 invariant same(r.entries, old(r.entries)) && forall(i, 0, len(r.entries), same(r.entries[i].summary, old(r.entries[i].summary)))
